@@ -1,7 +1,7 @@
 use super::query::MetaStoreQuery;
 use super::store::{
     ChunkRolePosition, ChunkStore, ClusterStore, HostProxy, MetaStore, MetaStoreError,
-    ProxyResource, CHUNK_HALF_NODE_NUM, CHUNK_PARTS, NODES_PER_PROXY,
+    MigrationSlotRangeStore, ProxyResource, CHUNK_HALF_NODE_NUM, CHUNK_PARTS, NODES_PER_PROXY,
 };
 use crate::common::cluster::ClusterName;
 use crate::common::cluster::{Node, Proxy, Range, RangeList, SlotRange, SlotRangeTag};
@@ -851,6 +851,20 @@ impl<'a> MetaStoreUpdate<'a> {
 
         let mut peer_position = HashSet::new();
 
+        let mut reissue = |migrating_slots: &mut Vec<MigrationSlotRangeStore>| {
+            for migrating_slot_range in migrating_slots.iter_mut() {
+                migrating_slot_range.meta.epoch = new_epoch;
+                peer_position.insert((
+                    migrating_slot_range.meta.src_chunk_index,
+                    migrating_slot_range.meta.src_chunk_part,
+                ));
+                peer_position.insert((
+                    migrating_slot_range.meta.dst_chunk_index,
+                    migrating_slot_range.meta.dst_chunk_part,
+                ));
+            }
+        };
+
         for chunk in cluster.chunks.iter_mut() {
             if chunk.proxy_addresses[0] == failed_proxy_address {
                 // We should never reset the tasks that they does not need to be.
@@ -859,36 +873,26 @@ impl<'a> MetaStoreUpdate<'a> {
                 if chunk.role_position == ChunkRolePosition::SecondChunkMaster {
                     return Ok(());
                 }
+                let old_position = chunk.role_position;
                 chunk.role_position = ChunkRolePosition::SecondChunkMaster;
 
-                for migrating_slot_range in chunk.migrating_slots[0].iter_mut() {
-                    migrating_slot_range.meta.epoch = new_epoch;
-                    peer_position.insert((
-                        migrating_slot_range.meta.src_chunk_index,
-                        migrating_slot_range.meta.src_chunk_part,
-                    ));
-                    peer_position.insert((
-                        migrating_slot_range.meta.dst_chunk_index,
-                        migrating_slot_range.meta.dst_chunk_part,
-                    ));
+                reissue(&mut chunk.migrating_slots[0]);
+                // After an earlier failover of the other proxy both masters were on this proxy,
+                // so the master node of the second part changes as well.
+                if old_position == ChunkRolePosition::FirstChunkMaster {
+                    reissue(&mut chunk.migrating_slots[1]);
                 }
                 break;
             } else if chunk.proxy_addresses[1] == failed_proxy_address {
                 if chunk.role_position == ChunkRolePosition::FirstChunkMaster {
                     return Ok(());
                 }
+                let old_position = chunk.role_position;
                 chunk.role_position = ChunkRolePosition::FirstChunkMaster;
 
-                for migrating_slot_range in chunk.migrating_slots[1].iter_mut() {
-                    migrating_slot_range.meta.epoch = new_epoch;
-                    peer_position.insert((
-                        migrating_slot_range.meta.src_chunk_index,
-                        migrating_slot_range.meta.src_chunk_part,
-                    ));
-                    peer_position.insert((
-                        migrating_slot_range.meta.dst_chunk_index,
-                        migrating_slot_range.meta.dst_chunk_part,
-                    ));
+                reissue(&mut chunk.migrating_slots[1]);
+                if old_position == ChunkRolePosition::SecondChunkMaster {
+                    reissue(&mut chunk.migrating_slots[0]);
                 }
                 break;
             }
